@@ -10,7 +10,9 @@ import xarray as xr
 from harness import xvio
 
 ID = 'C17'
-RULE = ('datasets of 2..6 same-shaped layers (1x1 .. 5x6, mostly non-square; small integer / half-integer values so ties '
+RULE = ('datasets of 2..8 same-shaped layers (1x1 .. 5x6 mostly non-square, plus 1x40, 40x1, 17x23, 32x8, 9x64; with and without '
+        'ascending / descending coordinates; every integer width signed and unsigned, float16/32/64; dtype-boundary values 2**24+1, 2**31, '
+        '2**32+1, 2**49 and the dtypes\' own extremes; signed zeros; cell_stats with func given and left at its default; small integer / half-integer values so ties '
         'are frequent; NaN and +-inf in float layers; float64/float32/int32/int64), each layer stored C-contiguous, '
         'Fortran-ordered, as a strided view or with negative strides; data_vars = None or a random non-empty subset in random '
         'order (incl. a single layer); every choice of ref_var; integer reference layers mostly in 1..n plus 0, n+1 and '
@@ -26,7 +28,10 @@ TRUSTED = [
     'flattening, rows of ncols items, element-wise ==), not verified',
     'Stdlib QArith (no axioms) for the rational statistics',
 ]
-ASSUMPTIONS = ['NumPy-backed xarray.Dataset of 2-D same-shaped layers with at least one column; '
+ASSUMPTIONS = ['a float32 / float16 REFERENCE layer is only combined with layer values exactly representable in that precision (NumPy compares '
+               'the numpy reference scalar with the Python-float layer value in the reference\'s precision — a promotion artefact, not checked); '
+               'integer magnitudes <= 2**49 so that sums of 8 layers stay exact in float64; unsigned reference layers only with values >= 1; '
+               'NumPy-backed xarray.Dataset of 2-D same-shaped layers with at least one column; '
                'reference layers for rank/popularity have an integer dtype (a float reference raises TypeError in list indexing)',
                'the model is the behaviour after fixes/C17-nditer-c-order-single-layer.diff (C-order iteration, single layer allowed)']
 PARTIAL = [
@@ -52,6 +57,8 @@ FUNCS = ['cell_stats', 'combine', 'lesser_frequency', 'equal_frequency', 'greate
 REF_FUNCS = {'lesser_frequency', 'equal_frequency', 'greater_frequency', 'popularity', 'rank'}
 STATS = ['max', 'mean', 'median', 'min', 'std', 'sum']
 DTYPES = ['float64', 'float32', 'int32', 'int64']
+MORE_DTYPES = ['int8', 'int16', 'uint8', 'uint16', 'uint32', 'uint64', 'float16']
+HUGE = [2.0 ** 24 + 1, 2.0 ** 24, 2.0 ** 31 - 1, 2.0 ** 31, 2.0 ** 32 + 1, 2.0 ** 49 - 1, 2.0 ** 49, 65535.0, 65536.0, 255.0, 256.0]
 LAYOUTS = ['C', 'F', 'strided', 'neg']
 KEY_ORDER = 'nditer-order-k-noncontiguous-layers'
 KEY_SINGLE = 'single-data-var-typeerror'
@@ -91,7 +98,14 @@ def make_array(spec, force_c=False):
 
 
 def make_dataset(case, force_c=False):
-    return xr.Dataset({name: (('y', 'x'), make_array(case['layers'][name], force_c)) for name in case['names']})
+    ds = xr.Dataset({name: (('y', 'x'), make_array(case['layers'][name], force_c)) for name in case['names']})
+    cd = case.get('coords')
+    if cd:
+        rows, cols = case['shape']
+        ys = np.arange(rows, dtype='float64') * 0.5 + 10
+        xs = np.arange(cols, dtype='float64') * 2.0 - 3
+        ds = ds.assign_coords(y=ys[::-1] if cd == 'desc' else ys, x=xs)
+    return ds
 
 
 def selected_vars(case):
@@ -117,7 +131,10 @@ def call_impl(local, case, force_c=False):
         kw['data_vars'] = list(case['data_vars'])
     try:
         if fn == 'cell_stats':
-            res = local.cell_stats(ds, func=case['stat'], **kw)
+            if case.get('stat_default'):
+                res = local.cell_stats(ds, **kw)          # func left at its default ('sum')
+            else:
+                res = local.cell_stats(ds, func=case['stat'], **kw)
         elif fn in REF_FUNCS:
             res = getattr(local, fn)(ds, case['ref_var'], **kw)
         else:
@@ -401,8 +418,13 @@ def gen_layer(rng, rows, cols, dtype, profile):
                 # values a hair away from small integers (within any isclose-style tolerance, but not equal):
                 # exact comparisons against the integer reference layer must still tell them apart
                 v = float(rng.randint(0, 4)) + rng.choice([0.0, 0.0, 2.0 ** -20, -2.0 ** -20])   # representable in float32 too
+            elif profile == 'huge':
+                # dtype boundaries: above 2**24 (float32), around 2**31 / 2**32, up to 2**49 (sums of 8 stay below 2**53)
+                v = rng.choice(HUGE) * rng.choice([1, 1, -1]) if rng.random() < 0.7 else float(rng.randint(-3, 3))
             else:
                 v = rng.randint(-6, 12) / 2.0
+            if v == 0 and dtype.startswith('float') and rng.random() < 0.3:
+                v = -0.0
             if dtype.startswith('float'):
                 u = rng.random()
                 if u < 0.07:
@@ -413,6 +435,11 @@ def gen_layer(rng, rows, cols, dtype, profile):
                     v = float('-inf')
             else:
                 v = float(int(v))
+                if dtype.startswith('uint'):
+                    v = abs(v)
+                info = np.iinfo(dtype)
+                if not (info.min <= v <= info.max):
+                    v = float(info.max if v > 0 else info.min)      # the dtype's own extreme value
             row.append(tok_json(v))
         data.append(row)
     return data
@@ -420,7 +447,7 @@ def gen_layer(rng, rows, cols, dtype, profile):
 
 def gen_case(rng, i, quick):
     fn = FUNCS[i % len(FUNCS)]
-    nl = rng.choice([2, 2, 3, 3, 4, 5, 6])
+    nl = rng.choice([2, 2, 3, 3, 4, 5, 6, 6, 7, 8])
     shape_kind = rng.random()
     if shape_kind < 0.15:
         rows, cols = rng.randint(1, 4), rng.randint(1, 4)
@@ -430,13 +457,18 @@ def gen_case(rng, i, quick):
         rows, cols = rng.randint(1, 5), rng.randint(1, 6)
         if rows == cols:
             cols = cols + 1
+    if rng.random() < 0.04:
+        rows, cols = rng.choice([(1, 40), (40, 1), (17, 23), (32, 8), (9, 64)])       # larger rasters, long rows / columns
     names = [chr(ord('a') + k) for k in range(nl)]
     rng.shuffle(names)
-    profile = rng.choice(['ties', 'ties', 'wide', 'half', 'near'])
+    profile = rng.choice(['ties', 'ties', 'wide', 'half', 'near', 'huge'])
+    stat = STATS[(i // len(FUNCS)) % len(STATS)] if fn == 'cell_stats' else None
+    if profile == 'huge' and stat in ('mean', 'std'):
+        profile = 'wide'          # mean / std of 2**49-sized values differ from the exact value by float rounding only
     layout_mode = rng.random()
     layers = {}
     for n in names:
-        dtype = rng.choice(DTYPES)
+        dtype = rng.choice(DTYPES) if rng.random() < 0.7 else rng.choice(MORE_DTYPES)
         if layout_mode < 0.35:
             lay = 'C'
         elif layout_mode < 0.6:
@@ -446,7 +478,8 @@ def gen_case(rng, i, quick):
         else:
             lay = rng.choice(LAYOUTS)
         layers[n] = {'dtype': dtype, 'layout': lay, 'data': gen_layer(rng, rows, cols, dtype, profile)}
-    case = {'fn': fn, 'names': names, 'layers': layers, 'shape': [rows, cols], 'data_vars': None, 'ref_var': None, 'stat': None}
+    case = {'fn': fn, 'names': names, 'layers': layers, 'shape': [rows, cols], 'data_vars': None, 'ref_var': None, 'stat': None,
+            'coords': rng.choice([None, None, 'asc', 'desc'])}
     cand = list(names)
     if fn in REF_FUNCS:
         ref = rng.choice(names)
@@ -457,11 +490,15 @@ def gen_case(rng, i, quick):
         case['data_vars'] = rng.sample(cand, k)
     nsel = len(case['data_vars']) if case['data_vars'] else len(cand)
     if fn == 'cell_stats':
-        case['stat'] = STATS[(i // len(FUNCS)) % len(STATS)]
+        case['stat'] = stat
+        if stat == 'sum' and rng.random() < 0.4:
+            case['stat_default'] = True
     if fn in ('rank', 'popularity'):
         rl = layers[case['ref_var']]
-        rl['dtype'] = rng.choice(['int32', 'int64'])
+        rl['dtype'] = rng.choice(['int32', 'int64', 'int8', 'int16', 'uint8', 'uint16', 'uint32', 'uint64'])
         mode = rng.random()
+        if rl['dtype'].startswith('uint'):
+            mode = mode * 0.7         # `ref - 1` wraps for an unsigned 0: only references >= 1 (the property's domain)
         data = []
         for _ in range(rows):
             row = []
@@ -478,8 +515,14 @@ def gen_case(rng, i, quick):
     elif fn in REF_FUNCS:
         rl = layers[case['ref_var']]
         if rng.random() < 0.7:
-            rl['dtype'] = rng.choice(['int32', 'int64'])
+            rl['dtype'] = rng.choice(['int32', 'int64', 'int8', 'uint8', 'uint16', 'int16', 'uint64'])
             rl['data'] = [[float(rng.randint(0, 4)) for _ in range(cols)] for _ in range(rows)]
+            if profile == 'huge' and rl['dtype'] in ('int32', 'int64', 'uint64'):
+                rl['data'] = [[float(rng.choice([2 ** 24, 2 ** 24 + 1, 2 ** 31 - 1, 0, 3])) for _ in range(cols)] for _ in range(rows)]
+        elif rl['dtype'] in ('float32', 'float16') and profile in ('near', 'huge'):
+            # a float32 / float16 reference makes NumPy compare in that precision (the Python-float layer values are the
+            # "weak" operand): values that differ only beyond it would be counted as equal — a promotion artefact, kept out
+            rl['dtype'] = 'float64'
     return case
 
 
